@@ -192,7 +192,7 @@ class Gen:
         ready = []
         pool = self.fds + [-2] + ([self.nextfd + 7] if self.rng.random() < 0.1 else [])
         if nready is None:
-            nready = self.rng.choice([0, 1, 2, 3, len(pool)])
+            nready = self.rng.choice([0, 1, 2, 3, min(len(pool), 40)])
         for fd in self.rng.sample(pool, min(nready, len(pool))):
             bits = EPOLLIN if fd == -2 else self.rng.choice([1, 1, 4, 5, 8, 16, 3, 2])
             ready.append("%d:%d" % (fd, bits))
